@@ -62,13 +62,17 @@ func checkC07(c *Ctx) {
 		c.withAlias(map[string]string{"R06.6": "R10.1"}, func() { c.traitTTLRule("R06.6") })
 		c.c10ExpireAt()
 		c.c10Jitter()
-	}, func(o *coreObl) (string, bool) { return "R07.5", o.Rule == "R10.1" || o.Rule == "R10.3" || o.Rule == "R10.2" })
+	}, func(o *coreObl) (string, bool) {
+		return "R07.5", o.Rule == "R10.1" || o.Rule == "R10.3" || o.Rule == "R10.2"
+	})
 	// … after a Walk — also one whose callback failed — the map still works: Walk leaves no shard lock held on any exit (C08 R08.5)
 	c.borrow("C08", func() {
 		for _, b := range backends {
 			c.c08Backend(b)
 		}
-	}, func(o *coreObl) (string, bool) { return "R07.7", o.Rule == "R08.5" && strings.HasSuffix(o.Construct, "Walk") })
+	}, func(o *coreObl) (string, bool) {
+		return "R07.7", o.Rule == "R08.5" && strings.HasSuffix(o.Construct, "Walk")
+	})
 	// "an expired entry yields ErrExpired": the expiry error matches the sentinel and the expired-item interfaces (C03 R03.3)
 	c.borrow("C03", func() { c.c03ExpiryErrorTypes() }, func(o *coreObl) (string, bool) { return "R07.2", o.Rule == "R03.3" })
 	// the expiry an entry reports (ExpireAt / ExpiredAt) is its E: tsTime is the exact inverse of ts (C10 R10.5)
